@@ -56,6 +56,11 @@ def phases(quick):
         ("2tags/multiline", 2, [g.CHUNKS_SMALL] * 3, ml_tags(), ("default",), (False,), NL_FORMS),
         ("2tags/delims", 2, [g.CHUNKS_SMALL] * 3, g.tags("none") + ml_tags("few"), alld[1:], (False,), ("\n", "\r\n")),
     ]
+    ph += [
+        ("1tag/unicode-ws", 1, [g.CHUNKS_WS, g.CHUNKS_WS], g.tags("full", g.CHUNKS_WS), ("default", "asp"), (False, True), NL_FORMS),
+        ("2tags/unicode-ws", 2, [("", "\xa0"), g.CHUNKS_WS, ("", "\n\x0b")],
+         g.tags("none") + [("raw", m, "", RAW_BODY_A, "", m) for m in ("", "-")], ("default",), (False,), NL_FORMS),
+    ]
     if not quick:
         ph += [
             ("2tags/full", 2, [full] * 3, g.tags("outer", (RAW_BODY_A,)) + ml_tags("few"),
